@@ -37,8 +37,10 @@ known-root-regularisation-improper-cavity-assertion      (DEFECT found by this m
     posterior - prior_message without the damping used for edge messages; when a root's posterior rate has dropped
     below its current prior message the cavity rate is <= 0 and the EM penalty is not positive.  Seen only with
     regularise_roots=True, max_shape >= 1e6 (not the default 1000), historical / internal samples and a mutation
-    rate >= 100 x too large.  A failing call lands in this clause only if the identical EP run completes with
-    regularise=False (which pins the failure on propagate_prior, the only code under that switch).
+    rate >= 100 x too large.  A failing call lands in this clause only if it is recognised by its mechanism
+    (root_cavity_diagnosis): the identical EP run completes with regularise=False, every unconstrained root has a
+    proper posterior when the assertion trips, and some root's cavity posterior - prior_message is improper.
+    Anything else (e.g. a root that never received a message) stays in the strict generic clause.
 
 Input space and bound
 ---------------------
@@ -193,36 +195,54 @@ def add_root_mutations(ts, k=2):
 
 
 def isolate_sample_partially(ts):
-    """Delete the edge(s) above sample 0 over the first tree's interval when the sequence has >= 2 trees
-    (sample 0 becomes isolated, i.e. missing data, there); its parent there must keep >= 2 children."""
+    """Make one sample isolated (missing data) over the first tree's interval, keeping every other node non-unary:
+    in the first tree take a sample s whose parent p has exactly one other child w and has a parent g; over that
+    interval remove the edges p-s, p-w, g-p and add g-w.  Needs >= 2 trees so that s stays connected elsewhere."""
     if ts.num_trees < 2:
         return None
     t = ts.first()
+    left, right = t.interval
+    pick = None
     for s in ts.samples():
         p = t.parent(s)
-        if p != tskit.NULL and t.num_children(p) >= 3:
-            break
-    else:
+        if p == tskit.NULL or t.num_children(p) != 2 or t.parent(p) == tskit.NULL:
+            continue
+        if not any(e.child == s and (e.left >= right or e.right <= left) for e in ts.edges()):
+            continue   # s would be disconnected everywhere
+        w = [c for c in t.children(p) if c != s][0]
+        pick = (s, p, w, t.parent(p))
+        break
+    if pick is None:
         return None
-    left, right = t.interval
+    s, p, w, g = pick
     tables = ts.dump_tables()
     tables.edges.clear()
     for e in ts.edges():
-        if e.child == s and e.left < right and e.right > left:
-            if e.right > right:
-                tables.edges.add_row(right, e.right, e.parent, e.child)
+        hit = e.left < right and e.right > left and ((e.parent == p and e.child in (s, w)) or (e.parent == g and e.child == p))
+        if not hit:
+            tables.edges.add_row(e.left, e.right, e.parent, e.child)
             continue
-        tables.edges.add_row(e.left, e.right, e.parent, e.child)
+        if e.left < left:
+            tables.edges.add_row(e.left, left, e.parent, e.child)
+        if e.right > right:
+            tables.edges.add_row(right, e.right, e.parent, e.child)
+    tables.edges.add_row(left, right, g, w)
     tables.mutations.clear()
     for m in ts.mutations():
         x = ts.sites_position[m.site]
-        if m.node == s and left <= x < right:
-            continue
+        if left <= x < right and m.node in (s, p):
+            continue   # mutations on the removed branches are dropped
         tables.mutations.add_row(site=m.site, node=m.node, derived_state=m.derived_state)
+    tables.sort()
+    tables.edges.squash()
     tables.sort()
     tables.build_index()
     tables.compute_mutation_parents()
-    return tables.tree_sequence()
+    out = tables.tree_sequence()
+    # the removed parent must still be used elsewhere, otherwise it is a disconnected node (rejected input)
+    if not (np.any(out.edges_parent == p) or np.any(out.edges_child == p)):
+        return None
+    return out
 
 
 def shape_inputs(rng, n_leaves, k):
@@ -253,7 +273,7 @@ def build_inputs(tier, seed, rng):
         if ts is not None:
             out.append((f"polytomy_{i}", ts, 1e-4))
     out.append(("star_forest", star_forest(), 0.05))
-    for i in range(2 if q else 6):
+    for i in range(4 if q else 8):
         ts = small_historical(seed * 1000 + i, n0=3 + i % 2, n_hist=1 + i % 3, rec=(0 if i % 2 == 0 else 1e-5))
         out.append((f"historical_{i}", ts, 1e-4))
         ts2 = make_internal_sample(ts, which=i)
@@ -267,7 +287,7 @@ def build_inputs(tier, seed, rng):
         out.append((f"diploid_{i}", small_sim(seed * 1000 + 100 + i, 2 + i % 2, ploidy=2,
                                               rec=(0 if i % 3 == 0 else 1e-5), mu=2e-4), 2e-4))
     want, j = (1 if q else 3), 0
-    while want > 0 and j < 200:
+    while want > 0 and j < (8 if q else 30):
         ts = small_sim(seed * 1000 + 300 + j, 2 + j % 2, ploidy=2, rec=(0 if j % 2 == 0 else 1e-5), mu=4e-4)
         j += 1
         if has_twin(ts):
@@ -276,7 +296,7 @@ def build_inputs(tier, seed, rng):
     for i in range(2 if q else 5):
         out.append((f"root_mutations_{i}", add_root_mutations(small_sim(seed * 1000 + 60 + i, 4, rec=(0 if i % 2 == 0 else 1e-5)), 2 + i), 1e-4))
     k, found = 0, 0
-    while found < (1 if q else 3) and k < 60:
+    while found < (1 if q else 3) and k < (6 if q else 20):
         ts = isolate_sample_partially(small_sim(seed * 1000 + 400 + k, 5, rec=3e-5))
         k += 1
         if ts is not None and ts.num_mutations > 0:
@@ -314,6 +334,41 @@ def unphased_singletons(ts):
     return out
 
 
+def root_cavity_diagnosis(tsdate, ts, cfg):
+    """Recognise the known propagate_prior defect by its mechanism.  Returns a description, or None when the failure
+    is something else.  All of the following must hold: (1) the identical EP run completes with regularise=False
+    (propagate_prior is the only code under that switch); (2) re-running with regularise=True fails in some
+    iteration, and at that moment (the assertion precedes any write) every unconstrained root still has a PROPER
+    posterior (shape > 0, rate > 0, finite), i.e. no node is missing its first message; (3) for at least one such
+    root the cavity  posterior - scale * prior_message  has a non-positive rate or shape."""
+    EP = tsdate.variational.ExpectationPropagation
+    mk = dict(mutation_rate=cfg["mutation_rate"], singletons_phased=cfg["singletons_phased"])
+    try:
+        alt = EP(ts, **mk)
+        for _ in range(cfg["max_iterations"]):
+            alt.iterate(max_shape=cfg["max_shape"], regularise=False)
+    except Exception:
+        return None
+    fit = EP(ts, **mk)
+    for it in range(cfg["max_iterations"]):
+        try:
+            fit.iterate(max_shape=cfg["max_shape"], regularise=True)
+        except AssertionError:
+            roots = np.flatnonzero(np.array(fit.unconstrained_roots))
+            P = np.array(fit.node_posterior)[roots]
+            proper = np.all(np.isfinite(P)) and np.all(P[:, 0] > -1) and np.all(P[:, 1] > 0)
+            prior = np.array(fit.factors.node)[roots, 0] * np.array(fit.factors.scale)[roots, None]
+            cav = P - prior
+            bad = (cav[:, 1] <= 0) | (cav[:, 0] <= -1)
+            if proper and np.any(bad):
+                return {"iteration": it + 1, "roots": roots[bad], "posterior": P[bad], "prior_message": prior[bad],
+                        "cavity": cav[bad]}
+            return None
+        except Exception:
+            return None
+    return None
+
+
 # ------------------------------------------------------------------ one evaluation
 def evaluate(rep, stats, tsdate, key, name, ts, cfg):
     desc = dict(cfg, input_name=name, ts=bounded_api.ts_to_json(ts))
@@ -348,19 +403,15 @@ def evaluate(rep, stats, tsdate, key, name, ts, cfg):
             # intermediate posterior.  One such condition is a KNOWN defect and is isolated in its own clause: the
             # root-regularisation update (propagate_prior, only run when regularise_roots=True) subtracts the prior
             # message without damping, the cavity rate can go negative and `assert penalty > 0` trips.  It is
-            # recognised by its cause, not by its input: the identical run completes with regularise=False.
+            # recognised by its mechanism (root_cavity_diagnosis), not by its input.
             clause = "ep-run-hits-no-properness-assertion"
+            diag = None
             if cfg["regularise_roots"] and isinstance(e, AssertionError):
-                try:
-                    alt = tsdate.variational.ExpectationPropagation(ts, mutation_rate=cfg["mutation_rate"],
-                                                                    singletons_phased=cfg["singletons_phased"])
-                    for _ in range(cfg["max_iterations"]):
-                        alt.iterate(max_shape=cfg["max_shape"], regularise=False)
+                diag = root_cavity_diagnosis(tsdate, ts, cfg)
+                if diag is not None:
                     clause = "known-root-regularisation-improper-cavity-assertion"
-                except Exception:
-                    pass
             rep.case(clause, False, key=key, input=desc,
-                     observed={"exception": tag, "frames": where[-4:]}, expected="EP run completes")
+                     observed={"exception": tag, "frames": where[-4:], "diagnosis": diag}, expected="EP run completes")
             return
     rep.case("ep-run-hits-no-properness-assertion", True, key=key, input=desc, nontrivial=False)
     stats["calls"] += 1
@@ -462,7 +513,7 @@ def run(req, rep):
                        "singletons_phased": phased, "regularise_roots": True, "match_segregating_sites": False}
                 evaluate(rep, stats, tsdate, f"{name}/stress/it{it}/ms{ms:g}/ph{int(phased)}/mux{factor:g}", name, ts, cfg)
     rep.notes.append("coverage: " + ", ".join(f"{k}={v}" for k, v in stats.items() if k != "exceptions"))
-    rep.notes.append("calls that raised (outside C05, judged by C35): " +
+    rep.notes.append("calls that raised, by type (see docstring for how each is judged): " +
                      (", ".join(f"{v} x [{k}]" for k, v in sorted(stats["exceptions"].items())) or "none"))
 
 
